@@ -8,6 +8,7 @@
   and the order are arbitrary: one theorem covers all six tree types.
 -/
 import Gobptree.Proofs.RunOk
+import Gobptree.Proofs.CSolo
 
 namespace Gobptree
 
@@ -80,7 +81,40 @@ theorem C01_order2_delete_counterexample :
 
 end Gobptree
 
+namespace Gobptree.Conc
+open Gobptree
+
+variable {K V : Type}
+
+/-- **C01 (the two Lean models agree).** Whenever the sequential big-step model (`Ops.lean`,
+    about which C01/C02/C08/C11 are proved) runs a history without a Go panic, a single thread
+    of the concurrent small-step model (`Conc.lean`, about which C03–C10 are proved) running the
+    same history ends with EXACTLY the same tree — same node identities, same allocation counter
+    — the same results position by position and the same callback arguments. -/
+theorem C01_models_agree (P : Params K) (ops : List (Op K V)) (t' : Tree K V) (outs : List (Out V))
+    (hseq : Tree.run P (Tree.new P.order) ops = .ok (t', outs)) :
+    ∃ n c', (Config.init P (Tree.new P.order) [ops.map copOf]).run (List.replicate n 0) = (c', none) ∧
+      c'.unfinished = false ∧ c'.dead = false ∧ c'.tree = t' ∧ c'.owner = [] ∧
+      ∃ rs, (retNotes c'.log).reverse = numbered 0 rs ∧ ResAll outs rs ∧ (cbNotes c'.log).reverse = outCbs outs :=
+  solo_run_new P ops t' outs hseq
+
+/-- **C01 on the concurrent model.** A lone thread of the concurrent model started on a fresh tree
+    never panics and refines the map specification: final contents, results and callback
+    arguments are those of `Spec.run` (Delete only at order ≥ 4). -/
+theorem C01_concurrent_model_solo (lt : K → K → Bool) (P : Params K) (hp : ParamsOk lt P) (ops : List (Op K V))
+    (hdel : ∀ op ∈ ops, op.isDelete = true → 4 ≤ P.order) :
+    ∃ n c', (Config.init P (Tree.new P.order) [ops.map copOf]).run (List.replicate n 0) = (c', none) ∧
+      c'.unfinished = false ∧ c'.dead = false ∧ c'.owner = [] ∧
+      Node.pairs c'.tree.root = (Spec.run lt [] ops).1 ∧
+      ∃ rs, (retNotes c'.log).reverse = numbered 0 rs ∧ ResAll (Spec.run lt ([] : List (K × V)) ops).2 rs ∧
+        (cbNotes c'.log).reverse = outCbs (Spec.run lt ([] : List (K × V)) ops).2 :=
+  solo_refines_spec lt P hp ops hdel
+
+end Gobptree.Conc
+
 #print axioms Gobptree.C01_refines_map
 #print axioms Gobptree.C01_order2_partial
 #print axioms Gobptree.C01_search_unchanged
 #print axioms Gobptree.C01_order2_delete_counterexample
+#print axioms Gobptree.Conc.C01_models_agree
+#print axioms Gobptree.Conc.C01_concurrent_model_solo
